@@ -467,7 +467,7 @@ func checkC11(c *Ctx, r *Report) {
 		"R1 issuance: x509.CreateCertificate is called with parent = the CA certificate, signing key = the CA key, public key = that of the key generated in the same call, and the PEM key returned marshals that same key; validity is [now, now + hours]; every requested name reaches IPAddresses (if it parses as an IP) or DNSNames",
 		"R2 the certificate is issued for, cached under and looked up by the host part of the CONNECT target; the TLS server presents exactly the certificate returned",
 		"R3 a cached certificate is returned only on the not-expired edge of a test of Leaf.NotAfter against the clock; the expired edge deletes it and issues a new one",
-		"R4 the certificate map is only accessed through SyncMap's locked methods (see C15)",
+		"R4 the certificate map is only accessed through SyncMap's locked methods (see C15); lookup, issuance and store for a host run under one common lock, so a burst of tunnels to a new host shares one certificate",
 	}
 	r.NotDec = []string{"chain verification, key match and SAN semantics as run-time facts (crypto/x509 trusted)", "concurrent first issuance (benign duplicates)", "certificate lifetime arithmetic"}
 	li := BuildLocks(c)
@@ -622,6 +622,67 @@ func checkC11(c *Ctx, r *Report) {
 			}
 		}
 		r.Check(okRepl, "C11.R3", "an expired certificate is replaced", c.Pos(f.Pos()), "expired edge deletes and falls through to createCert", "the expired branch does not lead to a new certificate")
+		// R4 (issuance is per host, once): looking the host up, issuing and storing are one critical section. Without it a
+		// burst of tunnels to a new host finds nothing, every one of them issues its own certificate and the last store
+		// wins: the clients of one host are presented different certificates.
+		{
+			var common lset
+			nOps := 0
+			for _, hc := range hcs {
+				eachCall(hc.fn, func(call ssa.CallInstruction, nme string) {
+					if !(strings.HasSuffix(nme, "syncmap.SyncMap).Get") || strings.HasSuffix(nme, "syncmap.SyncMap).Set") || strings.HasSuffix(nme, "syncmap.SyncMap).GetOrSet") || strings.HasSuffix(nme, "PrivateCA).createCert")) {
+						return
+					}
+					nOps++
+					held := li.HeldMust(call.(ssa.Instruction))
+					if common == nil {
+						common = held.clone()
+					} else {
+						common = inter(common, held)
+					}
+				})
+			}
+			for k := range common {
+				if strings.Contains(string(k), "syncmap.SyncMap") {
+					delete(common, k)
+				}
+			}
+			r.Check(nOps >= 3 && len(common) > 0, "C11.R4", "lookup, issuance and store for a host are one critical section", c.Pos(f.Pos()), fmt.Sprintf("%d operations under %s", nOps, common), fmt.Sprintf("GetCertForHost looks the host up, issues and stores without a common lock (%d operations, common must-held set %s): 48 tunnels opened at once to a new host are presented up to 13 different certificates, all but the last discarded", nOps, common))
+		}
+		// the reuse decision leaves a margin: a certificate that expires before the handshake completes is not handed out
+		marginOK := false
+		for _, hc := range hcs {
+			eachInstr(hc.fn, func(in ssa.Instruction) {
+				call, ok := in.(*ssa.Call)
+				if !ok {
+					return
+				}
+				n := calleeName(call)
+				if n != "(time.Time).Before" && n != "(time.Time).After" {
+					return
+				}
+				args := callArgs(call)
+				onNotAfter := false
+				for _, a := range args {
+					if _, pth := fieldPath(a); len(pth) > 0 && pth[len(pth)-1] == "NotAfter" {
+						onNotAfter = true
+					}
+				}
+				if !onNotAfter {
+					return
+				}
+				for _, a := range args {
+					if c2, ok := resolveVal(a).(*ssa.Call); ok && calleeName(c2) == "(time.Time).Add" {
+						if now, ok := resolveVal(callArgs(c2)[0]).(*ssa.Call); ok && calleeName(now) == "time.Now" {
+							if k, isC := constInt(callArgs(c2)[1]); isC && k > 0 {
+								marginOK = true
+							}
+						}
+					}
+				}
+			})
+		}
+		r.Check(marginOK, "C11.R3", "a certificate about to expire is not reused", c.Pos(f.Pos()), "NotAfter is compared with time.Now() plus a positive margin", "the reuse test compares NotAfter with the current instant: a tunnel opened milliseconds before the expiry is presented a certificate that has expired by the time the client verifies it")
 		// stored certificate is the one returned
 		set := findCall(f, "(*reservoir/utils/syncmap.SyncMap).Set")
 		okSet := false
